@@ -77,6 +77,62 @@ def replay(path):
     return 1 if probs else 0
 
 
+def extra_contracts(chk):
+    """Boundary sizes and the bases guard under a left-over stop request (second-round seeded faults)."""
+    import numpy as np
+    import torch
+    import lifecycle_heap as LH
+    from qucumber.nn_states import ComplexWaveFunction, DensityMatrix
+    from qucumber.callbacks import LambdaCallback
+    # explicit sizes are honoured also at the boundary 0 for the purification RBM (a legal, working model)
+    for nv, nh, na in ((3, 2, 0), (3, 0, 2), (2, 0, 0), (4, None, 0), (2, 3, None)):
+        chk.evaluations += 1
+        try:
+            st = DensityMatrix(nv, nh, na, gpu=False)
+        except Exception as ex:           # noqa: BLE001
+            chk.violation("construct:boundary-size:exception", dict(sizes=[nv, nh, na], error=repr(ex)))
+            continue
+        wnh, wna = (nv if nh is None else nh), (nv if na is None else na)
+        for rnd in range(2):
+            bad = []
+            for net in (st.rbm_am, st.rbm_ph):
+                got = dict(W=list(net.weights_W.shape), U=list(net.weights_U.shape), b=list(net.visible_bias.shape),
+                           c=list(net.hidden_bias.shape), d=list(net.aux_bias.shape))
+                want = dict(W=[wnh, nv], U=[wna, nv], b=[nv], c=[wnh], d=[wna])
+                if got != want:
+                    bad.append(dict(got=got, want=want))
+            if bad or (st.num_hidden, st.num_aux) != (wnh, wna) or (st.rbm_am.num_hidden, st.rbm_am.num_aux) != (wnh, wna):
+                chk.violation("construct:boundary-size:shapes", dict(sizes=[nv, nh, na], after="reinitialize" if rnd else "construction",
+                                                                   problems=bad, state_sizes=[st.num_hidden, st.num_aux]))
+                break
+            st.reinitialize_parameters()
+    # training without bases is refused before anything changes - also when a stop request is still set
+    # (left behind by a callback that ended an earlier run)
+    data = torch.tensor([[0., 1.], [1., 0.], [1., 1.]], dtype=torch.double)
+    for cls, args in ((ComplexWaveFunction, (2, 2)), (DensityMatrix, (2, 2, 2))):
+        for flag in (False, True):
+            st = cls(*args, gpu=False)
+            st.stop_training = flag
+            events = []
+            cb = LambdaCallback(on_train_start=lambda s: events.append("TS"), on_train_end=lambda s: events.append("TE"))
+            h0 = [p.detach().clone() for net in st.networks for p in getattr(st, net).parameters()]
+            r0 = torch.get_rng_state().clone()
+            chk.evaluations += 1
+            try:
+                out = st.fit(data, epochs=2, pos_batch_size=2, callbacks=[cb])
+                chk.violation("guard:fit-without-bases-not-refused:%s" % cls.__name__,
+                              dict(stop_training_was=flag, returned=repr(out), events=events))
+            except ValueError:
+                pass
+            except Exception as ex:       # noqa: BLE001
+                chk.violation("guard:fit-without-bases:wrong-exception:%s" % cls.__name__, dict(stop_training_was=flag, error=repr(ex)))
+            h1 = [p.detach() for net in st.networks for p in getattr(st, net).parameters()]
+            if events or not all(torch.equal(a, b) for a, b in zip(h0, h1)) or not torch.equal(r0, torch.get_rng_state()):
+                chk.violation("guard:fit-without-bases-changed-something:%s" % cls.__name__,
+                              dict(stop_training_was=flag, events=events))
+    chk.nontriv("boundary-sizes-and-guard")
+
+
 def run(tier, seed):
     chk = common.Check(PID, tier, seed)
     rng = random.Random(seed)
@@ -256,4 +312,5 @@ def run(tier, seed):
                         "the user never writes to an auxiliary bias; user writes are in place",
                         "training data contains >= 1 all-Z row; optimizers without weight decay",
                         "after a violation inside a behaviour its remaining actions are not replayed"]
+    extra_contracts(chk)
     return chk.finish()
